@@ -165,6 +165,7 @@ class Repo:
         renames = {}
         if not os.environ.get("TMVERIF_NO_CANON"):
             from . import canon
+            sigs = {}
             for rel, path in paths.items():
                 try:
                     with open(path, "rb") as f:
@@ -172,8 +173,16 @@ class Repo:
                     r = canon.module_function_renames(rel, t)
                     if r:
                         renames[rel] = r
+                    # signatures of the module-level functions (tmverif.canon N19), under their current and their reference names
+                    for n in t.body:
+                        if isinstance(n, ast.FunctionDef) and canon.signature_of(n) is not None:
+                            sigs[(rel, n.name)] = canon.signature_of(n)
+                            if n.name in r:
+                                sigs[(rel, r[n.name])] = canon.signature_of(n)
                 except (SyntaxError, UnicodeDecodeError):
                     pass
+            canon.PACKAGE_SIGNATURES.clear()
+            canon.PACKAGE_SIGNATURES.update(sigs)
         for rel, path in sorted(paths.items()):
             self.mods[rel] = ModInfo(rel, path, renames)
         self.consulted = set()
